@@ -467,7 +467,8 @@ class RCUUtilizationContext(AbstractContext, PipelineContextTool):
             ideal_total = data["Total"][1]
 
             for k, (dur, ideal, calls) in data.items():
-                ideal_cyc = int(ideal / abs(self.cycle_to_clock_factor))
+                # ideal is a sum of cycles * factor: the quotient is a whole number up to float noise
+                ideal_cyc = int(round(ideal / abs(self.cycle_to_clock_factor)))
 
                 # prevent div-by-zero exception
                 dur_frac, ideal_frac, pt_util = RCUUtilizationContext._compute_row_stats(dur, total, ideal, ideal_total)
